@@ -123,16 +123,18 @@ E02(verif_exc == 0 ==> __CPROVER_return_value == (const char*)(self->data + self
 E01(verif_exc == 0 ==> __CPROVER_return_value == (const char*)(self->data + self->offset))
 __CPROVER_assigns(verif_exc);
 
-/* skip_if: consumes `size` bytes iff they are available and equal to `data`; with the cursor inside it never throws */
+/* skip_if: consumes `size` bytes iff they are available and equal to `data`; with the cursor inside it never throws; with the
+ * cursor beyond the end (after an explicit go()) it must not read outside the buffer (the memcmp stub's precondition is the
+ * obligation): it either throws out_of_range or returns false */
 bool StringReader_skip_if(StringReader* self, const void* data, size_t size)
 RD_REQ(self) __CPROVER_requires(size <= VERIF_MAXLEN) __CPROVER_requires(__CPROVER_is_fresh(data, size))
-__CPROVER_requires(self->offset <= self->length)
-E02(verif_exc == 0)
-E02(__CPROVER_return_value ==> (INR(__CPROVER_old(self->offset), size, self->length) && self->offset == __CPROVER_old(self->offset) + size))
-E02(!__CPROVER_return_value ==> self->offset == __CPROVER_old(self->offset))
-E02(self->offset <= self->length)
-E01(__CPROVER_return_value ==> self->offset == __CPROVER_old(self->offset) + size)
-E01(__CPROVER_return_value ==> (g_mk < size ==> self->data[__CPROVER_old(self->offset) + g_mk] == ((const uint8_t*)data)[g_mk]))
+E02(verif_exc == 0 || (verif_exc == EXC_out_of_range && __CPROVER_old(self->offset) > self->length))   /* never throws with the cursor inside */
+E02((verif_exc == 0 && __CPROVER_old(self->offset) > self->length) ==> !__CPROVER_return_value)         /* cursor beyond the end: nothing can match */
+E02((verif_exc == 0 && __CPROVER_return_value) ==> (INR(__CPROVER_old(self->offset), size, self->length) && self->offset == __CPROVER_old(self->offset) + size))
+E02((verif_exc != 0 || !__CPROVER_return_value) ==> self->offset == __CPROVER_old(self->offset))
+E02(__CPROVER_old(self->offset) <= self->length ==> self->offset <= self->length)
+E01((verif_exc == 0 && __CPROVER_return_value) ==> self->offset == __CPROVER_old(self->offset) + size)
+E01((verif_exc == 0 && __CPROVER_return_value) ==> (g_mk < size ==> self->data[__CPROVER_old(self->offset) + g_mk] == ((const uint8_t*)data)[g_mk]))
 __CPROVER_assigns(verif_exc, self->offset);
 
 /* clamping reads into a caller buffer of `size` bytes */
